@@ -2,7 +2,7 @@
    from /repo, unordered array, flat map (mode `ko`), recursive map. These are the constants the extracted derive driver
    runs and the constants Glue/GlueAll.v and Props/C01..C06, C13, C15 are stated about. No proofs here. *)
 From Coq Require Import List ZArith.
-Require Import SD.ListOps SD.Ordered U.UnordArr M.MapFlat R.AssocList R.SortedMap R.MapRec R.DModel3.
+Require Import SD.ListOps SD.Ordered U.UnordArr M.MapFlat R.AssocList R.SortedMap R.MapRec R.DModel3 R.DSetters.
 Require Export Gen.ConstsOrdered.
 
 Definition odiff (t s: list Z) := Ordered.hirschberg Z.eqb LEVENSHTEIN_CUTOFF DELETE_COST REPLACE_COST INSERT_COST t s 0%Z.
@@ -19,3 +19,6 @@ Notation entry_t := (DModel3.entry (list (@Ordered.change Z)) (@UnordArr.udiff Z
 Definition x_diff (ko: bool) (s: shape) (a b: value) : list entry_t := DModel3.diff_s _ _ _ odiff udiff (mdiff ko) rid s a b.
 Definition x_apply_single (s: shape) (x: value) (e: entry_t) : value := DModel3.apply_s _ _ _ oapply uapply mapply rid s x e.
 Definition x_apply (s: shape) (x: value) (d: list entry_t) : value := DModel3.apply _ _ _ oapply uapply mapply rid s x d.
+(* generated setter for field i of a struct with fields fs: (new field list, returned entry or none) *)
+Definition x_setter (ko: bool) (fs: fields) (xs: list value) (i: nat) (v: value) : list value * list entry_t :=
+  DSetters.setter _ _ _ odiff udiff (mdiff ko) rid fs xs i v.
